@@ -727,24 +727,50 @@ func triggerOK(call ssa.CallInstruction) (bool, string) {
 		if !ok {
 			continue
 		}
-		sx, sy := sources(b.X), sources(b.Y)
-		if (sx["field:Attempts"] && sy["field:MaxDeliveryAttempts"] || sy["field:Attempts"] && sx["field:MaxDeliveryAttempts"]) && (hasArith(b.X, 0) || hasArith(b.Y, 0)) {
-			why = "the comparison is not between the stored attempt count and the configured limit themselves (an operand is adjusted by arithmetic): the message is forwarded one delivery early or late"
+		// operands in linear form: <stored value> + constant (so that `attempts+1 > max` is read as `attempts >= max`)
+		bx, kx, okx := linearOf(b.X)
+		by, ky, oky := linearOf(b.Y)
+		sx, sy := sources(bx), sources(by)
+		rel := sx["field:Attempts"] && sy["field:MaxDeliveryAttempts"] || sy["field:Attempts"] && sx["field:MaxDeliveryAttempts"]
+		if !rel {
 			continue
 		}
-		if sx["field:Attempts"] && sy["field:MaxDeliveryAttempts"] {
-			if (b.Op == token.GEQ && cd.Pol) || (b.Op == token.LSS && !cd.Pol) {
-				hasCmp = true
-			} else {
-				why = "comparison is " + b.Op.String()
+		if !okx || !oky || hasArith(bx, 0) || hasArith(by, 0) {
+			why = "the comparison is not between the stored attempt count and the configured limit themselves (an operand is computed): the message is forwarded one delivery early or late"
+			continue
+		}
+		// normalise to  attempts OP limit + d  on the taken branch
+		op, d := b.Op, ky-kx
+		if sy["field:Attempts"] && sx["field:MaxDeliveryAttempts"] {
+			// limit + kx OP attempts + ky  ⇔  attempts OP' limit + (kx - ky)
+			d = kx - ky
+			switch op {
+			case token.LEQ:
+				op = token.GEQ
+			case token.LSS:
+				op = token.GTR
+			case token.GEQ:
+				op = token.LEQ
+			case token.GTR:
+				op = token.LSS
 			}
 		}
-		if sy["field:Attempts"] && sx["field:MaxDeliveryAttempts"] {
-			if (b.Op == token.LEQ && cd.Pol) || (b.Op == token.GTR && !cd.Pol) {
-				hasCmp = true
-			} else {
-				why = "comparison is " + b.Op.String()
+		if !cd.Pol {
+			switch op {
+			case token.LSS:
+				op = token.GEQ
+			case token.LEQ:
+				op = token.GTR
+			case token.GEQ:
+				op = token.LSS
+			case token.GTR:
+				op = token.LEQ
 			}
+		}
+		if op == token.GEQ && d == 0 || op == token.GTR && d == -1 {
+			hasCmp = true
+		} else {
+			why = fmt.Sprintf("the taken branch means attempts %s limit%+d, not attempts >= limit: the message is forwarded one delivery early or late", op, d)
 		}
 	}
 	if !hasCfg {
@@ -1107,4 +1133,39 @@ func hasArith(v ssa.Value, d int) bool {
 		}
 	}
 	return false
+}
+
+// linearOf: v = base + k for an integer constant k (through conversions); ok=false when v is computed otherwise.
+func linearOf(v ssa.Value) (ssa.Value, int64, bool) {
+	var k int64
+	for d := 0; d < 8; d++ {
+		switch x := v.(type) {
+		case *ssa.Convert:
+			v = x.X
+			continue
+		case *ssa.ChangeType:
+			v = x.X
+			continue
+		case *ssa.BinOp:
+			if x.Op == token.ADD || x.Op == token.SUB {
+				if c, isK := constInt(x.Y); isK {
+					if x.Op == token.ADD {
+						k += c
+					} else {
+						k -= c
+					}
+					v = x.X
+					continue
+				}
+				if c, isK := constInt(x.X); isK && x.Op == token.ADD {
+					k += c
+					v = x.Y
+					continue
+				}
+			}
+			return v, k, false
+		}
+		break
+	}
+	return v, k, true
 }
